@@ -27,11 +27,11 @@ NAME = 'M-REF'
 PROPS = ('C04', 'C10', 'C15')
 
 TIERS = {
-    'C04': {'quick': {'runs': 12000, 'wall_cap': 200},
+    'C04': {'quick': {'runs': 24000, 'wall_cap': 200},
             'thorough': {'runs': 400000, 'wall_cap': 1200}},
-    'C10': {'quick': {'runs': 5000, 'wall_cap': 200},
+    'C10': {'quick': {'runs': 10000, 'wall_cap': 200},
             'thorough': {'runs': 150000, 'wall_cap': 1200}},
-    'C15': {'quick': {'runs': 8000, 'wall_cap': 200},
+    'C15': {'quick': {'runs': 16000, 'wall_cap': 200},
             'thorough': {'runs': 250000, 'wall_cap': 1200}},
 }
 LEVELS = {p: 'exploration' for p in PROPS}
